@@ -98,11 +98,7 @@ def mcastRun (j : Json) : Except String Json := do
   let subsL := ops.filterMap fun (t, o) => match o with | .sub i => some (t, i) | _ => none
   let res := subsL.map fun (t, i) =>
     let tu : Option Nat := (ops.find? fun (p : Nat × Op) => p.2 == Op.unsub i).map (fun (p : Nat × Op) => p.1)
-    let inner := (List.range k).map fun a => (t, Op.sub a)
-    let stop := match tu with
-      | some u => (List.range k).map (fun a => (u, Op.unsub a)) ++ [(u, Op.disconnect 0)]
-      | none => []
-    let r := w.run (inner ++ [(t, Op.connect)] ++ stop) horizon
+    let r := w.mcastWorld k t tu horizon
     (i, mergeOut k 0 false r.out, r.srcLog)
   let outs := res.map fun (i, o, _) => (toString i, timedToJson o)
   let logs := res.foldl (fun acc (_, _, l) => acc ++ l) []
@@ -145,6 +141,11 @@ def syncRun (j : Json) : Except String Json := do
   let subj : Subj Nat ← match kind with
     | "plain" => pure {}
     | "behavior" => do pure { isBehavior := true, value := some (← getNat j "init") }
+    | "replay" =>
+      let buf := match j.getObjVal? "buf" with
+        | .ok (.num n) => some n.mantissa.toNat
+        | _ => none
+      pure { isReplay := true, bufSize := buf }
     | _ => throw s!"unknown subject kind {kind}"
   let sync ← (← getArr j "sync").mapM notifNat
   let actions ← (← getArr j "actions").mapM sopOfJson
